@@ -524,6 +524,25 @@ func startStack(engine string, eps []epSpec) (*stk, error) {
 		cfg.Server.RateLimits.HealthRequestsPerMinute = 0
 		cfg.Server.RateLimits.BurstSize = 0
 		stack.ApplyVary(cfg, stack.VaryFor("c15", engine, len(eps))) // settings no property mentions (scratch directories live in the run directory)
+		// whom the rate limiter believes about the client's address is no business of the header relay
+		switch stack.VaryFor("c15.trust", engine, len(eps)) % 3 {
+		case 1:
+			cfg.Server.RateLimits.TrustProxyHeaders = true
+			cfg.Server.RateLimits.TrustedProxyCIDRs = []string{"10.0.0.0/8"} // the harness's loopback clients are outside
+			_, n10, _ := net.ParseCIDR("10.0.0.0/8")
+			cfg.Server.RateLimits.TrustedProxyCIDRsParsed = []*net.IPNet{n10}
+		case 2:
+			cfg.Server.RateLimits.TrustProxyHeaders = true // loopback is a trusted proxy
+			cfg.Server.RateLimits.TrustedProxyCIDRs = []string{"127.0.0.0/8"}
+			_, lo, _ := net.ParseCIDR("127.0.0.0/8")
+			cfg.Server.RateLimits.TrustedProxyCIDRsParsed = []*net.IPNet{lo}
+		}
+		if v := os.Getenv("VERIF_C15_TRUST"); v == "narrow" {
+			cfg.Server.RateLimits.TrustProxyHeaders = true
+			cfg.Server.RateLimits.TrustedProxyCIDRs = []string{"10.0.0.0/8"}
+			_, n10, _ := net.ParseCIDR("10.0.0.0/8")
+			cfg.Server.RateLimits.TrustedProxyCIDRsParsed = []*net.IPNet{n10}
+		}
 		cfg.Proxy.Engine = engine
 		cfg.Proxy.LoadBalancer = "priority"
 		cfg.Discovery.ModelDiscovery.Enabled = true
